@@ -420,6 +420,67 @@ def run_shape_representation(ctx):
             ctx.disagree(f'Sh.{name}: the model\'s result is not well formed (PT.wf)', case, want, rep)
 
 
+def run_stack_representation(ctx):
+    """the model `Sh.stack` (anti-unification of all operands' axes, one slice per operand filled through a unification with the
+    generalised axes) predicts the REPRESENTATION of stack(tensors, dim) for 1..3 operands of one shape and default"""
+    from .unifygen import canon
+    from .common import enc_ext
+    reqs, meta = [], []
+    def enc(p_, ids):
+        pa = enc_list(p_.paxes, lambda k_: f'{ids.setdefault(id(k_), len(ids))} {k_._numel}')
+        va = enc_list(p_.vaxes, lambda e: ptgen.enc_axis(e, ids))
+        return f'{enc_list(p_.physical.contiguous().reshape(-1).tolist() if p_.physical.numel() else [], enc_ext)} {pa} {va} {enc_ext(float(p_.default))}'
+    for k in range(60 if ctx.quick else 1200):
+        nd = ctx.rng.choice([0, 1, 1, 2, 2, 3])
+        types = [ptgen.random_type(ctx.rng, depth=ctx.rng.choice([1, 2, 2]), sizes=[1, 2, 3, 2, 4]) for _ in range(nd)]
+        if math.prod(ty_numel(t) for t in types) > 200:
+            continue
+        d0 = ctx.rng.choice([0.0, 1.0, -math.inf])
+        m = ctx.rng.choice([1, 2, 2, 3])
+        ts = [random_pt(ctx.rng, types, defaults=[d0], specials=0.0) for _ in range(m)]
+        if m >= 2 and ctx.rng.random() < 0.2:
+            ts[1] = ts[0].clone() if ctx.rng.random() < 0.5 else ts[0]
+        if any(k_._numel == 0 for t in ts for k_ in t.paxes):
+            continue
+        dim = ctx.rng.randint(0, nd)
+        ids = {}
+        encs = [enc(t, ids) for t in ts]
+        case = dict(op='stack', operands=encs, dim=dim)
+        try:
+            r = stack(ts, dim); out = 'ok'
+        except VerifInvariantError as e:
+            ctx.fail(f'stack: the library constructed a PatternedTensor that violates the representation invariant: {e}', case, repr(e), None, tags=['invariant', 'stack'])
+            continue
+        except Exception as e:  # noqa
+            ctx.fail(f'stack raised {type(e).__name__}: {str(e)[:80]} on operands of one shape and default', case, repr(e), None, tags=['raises', 'stack', type(e).__name__])
+            continue
+        want_dense = torch.stack([t.to_dense() for t in ts], dim)
+        if not same_dense(r.to_dense(), want_dense, 0.0):
+            ctx.fail('stack: result does not denote torch.stack of the dense operands', case, r.to_dense().tolist(), want_dense.tolist(), tags=['value', 'stack'])
+        ids2 = dict(ids)
+        pa2 = enc_list(r.paxes, lambda k_: f'P {ids2.setdefault(id(k_), len(ids2))} {k_._numel}')
+        va2 = enc_list(r.vaxes, lambda e: ptgen.enc_axis(e, ids2))
+        want = f'{enc_list(r.physical.contiguous().reshape(-1).tolist(), enc_ext)} {pa2} {va2} {enc_ext(float(r.default))}'
+        reqs.append(f'C06.stack {enc_list(encs, lambda x: x)} {dim} {len(ids) + 5}')
+        meta.append((case, want))
+        ctx.count(f'stack-representation.{m}')
+    for (case, want), rep in zip(meta, ctx.driver.ask_many(reqs)):
+        if isinstance(rep, Exception):
+            raise rep
+        ctx.evaluations += 1
+        if not rep.startswith('ok'):
+            ctx.disagree('Sh.stack: the model raises where the library returns a tensor', case, want, rep[:120])
+            continue
+        toks = rep.split()[1:]
+        i = 0; L = int(toks[i]); phys = toks[i + 1:i + 1 + L]; i += 1 + L
+        P = int(toks[i]); pax = toks[i + 1:i + 1 + 2 * P]; i += 1 + 2 * P
+        mp = [str(L)] + phys + [str(P)] + sum((['P', pax[2 * j], pax[2 * j + 1]] for j in range(P)), []) + toks[i:-1]
+        if canon(mp) != canon(want.split()):
+            ctx.disagree('Sh.stack: representation of the result', case, want, ' '.join(mp))
+        elif toks[-1] != 'T':
+            ctx.disagree('Sh.stack: the model\'s result is not well formed (PT.wf)', case, want, rep)
+
+
 def run_unit_factors(ctx, reqs, meta):
     """index types with a factor of ONE element that is not the unit axis (a one-component sum `0 + () + 0`, as patterned JSON
     weights can spell it) at the start, in the middle or at the END of a product, each operand representing the same type in its own
@@ -521,6 +582,7 @@ def run(ctx):
     run_binary_representation(ctx)
     run_reshape_representation(ctx)
     run_shape_representation(ctx)
+    run_stack_representation(ctx)
     reqs, meta = [], []
     run_unit_factors(ctx, reqs, meta)
     U, B = unary_ops(), binary_ops()
